@@ -922,5 +922,17 @@ def run_graphspec(ctx):
         shutil.rmtree(base, ignore_errors=True)
 
 
-META_NOTE = ('graph arguments: coq/GraphSpec.v models parse_graph_argument and the argument validation of graph_build.py at token level '
-             '(float()/int() grammar included); harness/c18_graphspec.py compares them in-process')
+META_NOTE = ('Graph arguments (coq/GraphSpec.v, Prop_C18_graphspec.v): for every graph type and every token list parse_graph_argument ends in a '
+             'parsed value or ValueError; it consumes all tokens (the value renders back to the token list), keeps every option at most once, `save` '
+             'always has a file name; for every parsed value the argument validation of every obtain_*/modify_* ends in a plan of calls or ValueError '
+             '(exception classes and except clauses modelled statement by statement, float()/int() grammar included), and an accepted construction '
+             'satisfies the precondition of the generator it calls (gnd, gnm, gnp, grid, regular, glrm, glrd, shift, plant*, save/read formats); '
+             'torus with a dimension of size 1 is the one guard weaker than its callee (refuted, clean error). Compared in-process with the code on '
+             'token lists, numbers, file names and dictionaries (harness/c18_graphspec.py).')
+RULE_NOTE = ('streams gs-*: in-process comparison of the graph-argument model with parse_graph_argument / make_graph_from_spec / obtain_graph '
+             '(gs-number: float()/int() of a token; gs-ext: file name extension; gs-parse: token list -> dictionary or error statement; gs-validate: '
+             'token list -> generator call with converted arguments, modifiers, save format, or error statement; gs-records: dictionaries the parser '
+             'cannot produce; gs-huge: sizes >= 2^63). Non-trivial = non-empty token list / token; distinct = distinct (stream, graph type, tokens)')
+TRUSTED = ['graph arguments: CPython float() assumed correctly rounded (gs_le_one / gs_ge_zero decide the comparison on the exact decimal); readGraph '
+           'replaced by a stub graph of known size and the generators wrapped by recorders during the gs-validate stream; file system assumed '
+           'cooperative; code points above 255 and graph sizes beyond memory are outside the model']
